@@ -104,6 +104,7 @@ struct World {
     credit: [HashMap<u32, i64>; 2],
     open_ports: HashMap<u64, (usize, u64)>, // port -> (opener endpoint, req)
     connects_sent: HashMap<(usize, u64), usize>, // (opener endpoint, port) -> Connect frames seen on the wire
+    dg_owed: [std::collections::VecDeque<String>; 2], // datagrams accepted by send_datagram, not yet seen on the wire
     port_handle: HashMap<u64, [Option<usize>; 2]>,
     finished_cleanly: HashMap<(usize, usize), bool>,
     aborted: HashMap<(usize, usize), bool>,
@@ -242,6 +243,7 @@ impl World {
             credit: [HashMap::new(), HashMap::new()],
             open_ports: HashMap::new(),
             connects_sent: HashMap::new(),
+            dg_owed: [std::collections::VecDeque::new(), std::collections::VecDeque::new()],
             port_handle: HashMap::new(),
             finished_cleanly: HashMap::new(),
             aborted: HashMap::new(),
@@ -373,6 +375,34 @@ impl World {
             self.in_batch = false;
         } else {
             self.observe(e, &t, &out);
+        }
+        // C11, the sending side: a datagram `send_datagram` accepted goes onto the wire, in order, as long
+        // as the connection is up (it is lost only at a full receiver or when the connection ends). The
+        // outbound queue is FIFO: a later datagram on the wire while an earlier one never appeared means
+        // the earlier one was discarded by the sender.
+        {
+            let (_, evs) = out.split_once(" | ").unwrap_or((out.as_str(), ""));
+            for ev in evs.split("; ") {
+                let Some(h) = ev.strip_prefix("wire ") else { continue };
+                let Some((6, id, p)) = parse_frame(h) else { continue };
+                if p.len() < 3 || p.len() < 3 + p[0] as usize { continue; }
+                let hl = p[0] as usize;
+                let dg = format!("{} {} {} {}", id, hexd(&p[3..3 + hl]), u16::from_be_bytes([p[1], p[2]]), hexd(&p[3 + hl..]));
+                match self.dg_owed[e].iter().position(|x| *x == dg) {
+                    Some(0) => { self.dg_owed[e].pop_front(); }
+                    Some(j) => {
+                        let skipped: Vec<String> = self.dg_owed[e].drain(..j).collect();
+                        self.dg_owed[e].pop_front();
+                        if !self.view[e].exited && self.view[e].terminated_by.is_none() && !self.ep_faulted[e] {
+                            *self.mon.entry("dgram-sent-in-order/judged").or_insert(0) += 1;
+                            let msg = format!("endpoint {} put the datagram `{dg}` on the wire although {} datagram(s) its `send_datagram` had accepted before it never went out (first: `{}`): the sender discarded them while the connection was up", NAMES[e], skipped.len(), skipped[0]);
+                            self.fail("C11", "dgram-not-sent", msg);
+                        }
+                    }
+                    None => {}
+                }
+            }
+            if self.view[e].exited || self.view[e].terminated_by.is_some() || !self.view[e].mux_alive { self.dg_owed[e].clear(); }
         }
         if parked_before {
             *self.mon.entry("parked-writer-polled-again").or_insert(0) += 1;
@@ -647,6 +677,9 @@ impl World {
             ("dgsend", ["unit"]) => {
                 self.acc_dgram[e] += 1;
                 self.view[e].dg_sent.push(format!("{} {} {} {}", t[1], t[2], t[3], t[4]));
+                if up_e && self.view[e].mux_alive {
+                    self.dg_owed[e].push_back(format!("{} {} {} {}", t[1], t[2], t[3], t[4]));
+                }
             }
             ("dgsend", ["toolong"]) => {
                 if unhex(t[2]).unwrap().len() <= 255 {
@@ -1478,6 +1511,19 @@ fn run_case(r: &mut Rng, focus: Focus, len: usize) -> World {
             continue;
         }
         if k < wdg {
+            if focus == Focus::C11 && r.chance(1, 10) && !w.view[e].exited && w.view[e].mux_alive && w.view[e].terminated_by.is_none() {
+                // a burst of datagrams queued while the transport takes nothing: more than either side's
+                // datagram buffer holds, sometimes with stream frames behind them
+                let n = w.opts[e].dgram_cap.max(w.opts[1 - e].dgram_cap) + r.range(1, 4) as usize;
+                let was_blocked = w.sink_blocked[e];
+                if !was_blocked { w.sink_blocked[e] = true; w.stim(e, &[s("sinkblock")]); }
+                for j in 0..n {
+                    let hl = r.range(0, 4) as usize;
+                    w.stim(e, &[s("dgsend"), s(r.range(0, 9)), hexd(&r.bytes(hl)), s(r.range(0, 65535)), hexd(&[j as u8, r.below(256) as u8])]);
+                }
+                if !was_blocked { w.sink_blocked[e] = false; w.stim(e, &[s("sinkunblock")]); }
+                continue;
+            }
             if r.chance(3, 5) {
                 let hl = match r.below(8) { 0 => 0, 1 => 255, 2 => 256, 3 => r.range(257, 300) as usize, _ => r.range(1, 12) as usize };
                 let dl = match r.below(6) { 0 => 0, 1 => 1, 2 => 2, 3 => 3, 4 => r.range(4, 40) as usize, _ => r.range(41, 2000) as usize };
